@@ -180,7 +180,7 @@ func init() {
 			"composite type into wrapAny — the class behind the confirmed internal-error panics (R-FIXED).",
 		NotDecided:  "Termination, index ranges, nil values that travel through fields, and that line/column are correct (position arithmetic is value-level).",
 		Assumptions: []string{"field-borne nils are not tracked"},
-		Rules:       []*Rule{ruleNilRet, ruleScopeType, ruleFixed, ruleLexBound, ruleIndexGuard},
+		Rules:       []*Rule{ruleNilRet, ruleScopeType, ruleFixed, ruleLexBound, ruleIndexGuard, ruleProgress},
 	})
 	Register(&Property{
 		ID: "C04",
